@@ -8,7 +8,8 @@ A program is a dict:
   prod = {'syms': [('t', name) | ('r', name)], 'items': [...]}; items are
   ('A', k) ($k), ('S',) ($span), ('X',) ($lexer.span_str($span)), ('D',) ($$), ('P',) (parse param);
   start, avoid_insert, parse_param (None | value), lex_section {flag: val}, lex_api {flag: val},
-  settings {rec, ser, ed, vis, mody, modl}, inputs [str], family.
+  settings {rec, ser, ed, vis, mody, modl, entry (build | pf), amp}, inputs [str], family;
+  big_programs (None | bytes of an extra programs section), unused_tokens [names the .l has and the .y lacks].
 """
 import re
 import unicodedata
@@ -104,10 +105,19 @@ def render_y(prog):
             alts.append(s)
         head = "%s -> String" % rn if yk == 'G' else rn
         o.append("%s:\n      %s\n    ;" % (head, "\n    | ".join(alts)))
-    if yk in 'GU' and prog.get('local_label'):
+    if yk in 'GU' and (prog.get('local_label') or prog.get('big_programs')):
         o.append("%%")
         o.append("// programs section: passed through into the generated module")
-        o.append("fn gv_label(l: &str) -> &str { l }")
+        if prog.get('local_label'):
+            o.append("fn gv_label(l: &str) -> &str { l }")
+        if prog.get('big_programs'):
+            # a programs section of more than 80 KB: one string constant inside a function body (cheap for rustc);
+            # the section is a String of the serialised grammar, so the generated parser's start-up has to read a
+            # sequence of that size back
+            n = prog['big_programs']
+            chunk = "grmtools embeds the programs section in the serialised grammar. "
+            o.append("#[allow(dead_code)]")
+            o.append('fn gv_big() -> &\'static str {\n    "%s"\n}' % (chunk * (n // len(chunk) + 1)))
     return "\n".join(o) + "\n"
 
 
@@ -431,6 +441,60 @@ def fam_avoid(rng):
                 extra_inputs=["()", "7+()", "1 +", "( 2 + )", "(()) + 3", "+ 4"])
 
 
+def fam_keywords(rng, variant=None):
+    """the .l file NAMES tokens the grammar does not use (reserved words listed before the identifier rule, a
+    FLOAT rule after the INT rule): at run time such a rule still competes in longest match / rule order and,
+    when it wins, lexing stops with an error at that byte (its token id is None).  The generated lexerdef() has
+    to keep these rules.  `kw_hit` inputs reach them."""
+    variant = variant or rng.choice(["stmts", "stmts", "calls"])
+    unused = [("IF", "if", None), ("WHILE", "while", None)]
+    if rng.random() < 0.5:
+        unused.append(("RETURN", "return", None))
+    flt = ("FLOAT", "[0-9]+\\.[0-9]+", None)
+    if variant == "stmts":
+        used = [("ID", "[a-z]+", None), ("INT", "[0-9]+", "integer" if rng.random() < 0.5 else None), ("EQ", "=", None),
+                ("SEMI", ";", None)]
+        rules = [("Stmts", [{'syms': []}, {'syms': [('r', 'Stmts'), ('r', 'Stmt')]}]),
+                 ("Stmt", [{'syms': [('t', 'ID'), ('t', 'EQ'), ('t', 'INT'), ('t', 'SEMI')]}])]
+        start = "Stmts"
+
+        def sentence(depth=0):
+            s = []
+            for _ in range(rng.randint(0, 3)):
+                s += [rng.choice(["x", "iffy", "whiles", "returned", "i", "wh"]), "=", str(rng.randint(0, 99)), ";"]
+            return s
+        extra = ["x = 1;", "iffy = 2; whiles = 3;", "x = 1; if = 2;", "while = 1;", "x = if;", "x = 1.5;", "y = 2 ; z = 3.25 ;",
+                 "if", "x = 1; return", "return = 3 ;", "x = 1 while", "ifwhile = 7;", "x = 10.;", "x = ; if"]
+        alphabet = ["x", "=", "1", ";", "if", "while", "2.5", "return"]
+    else:
+        used = [("ID", "[a-z_]+", None), ("INT", "[0-9]+", None), ("LP", "\\(", None), ("RP", "\\)", None), ("COMMA", ",", None)]
+        rules = [("Call", [{'syms': [('t', 'ID'), ('t', 'LP'), ('r', 'Args'), ('t', 'RP')]}]),
+                 ("Args", [{'syms': []}, {'syms': [('r', 'Arg')]}, {'syms': [('r', 'Args'), ('t', 'COMMA'), ('r', 'Arg')]}]),
+                 ("Arg", [{'syms': [('t', 'INT')]}, {'syms': [('t', 'ID')]}, {'syms': [('r', 'Call')]}])]
+        start = "Call"
+
+        def sentence(depth=2):
+            def call(d):
+                s = [rng.choice(["f", "g_h", "iff", "whil"]), "("]
+                for i in range(rng.randint(0, 3)):
+                    if i:
+                        s.append(",")
+                    r = rng.random()
+                    s += call(d - 1) if (d > 0 and r < 0.3) else [str(rng.randint(0, 99))] if r < 0.7 else [rng.choice(["a", "ifs"])]
+                return s + [")"]
+            return call(depth)
+        extra = ["f(1, 2)", "if(1)", "f(while)", "f(1, if, 2)", "f(1.5)", "g(iff, 2.0)", "f(1,", "while", "f(x) if", "f(return)",
+                 "returns(1)", "f(1 2)"]
+        alphabet = ["f", "(", ")", ",", "1", "if", "while", "3.5"]
+    # order of the rules in the .l file: reserved words first (they win over ID on equal length), FLOAT somewhere
+    # after INT or before it (it wins by length either way)
+    tokens = list(unused) + list(used)
+    ii = [i for i, t in enumerate(tokens) if t[0] == "INT"][0]
+    tokens.insert(rng.choice([ii, ii + 1, len(tokens)]), flt)
+    return dict(family="keywords:" + variant, tokens=tokens, skip=["[ \\t\\n]+"], rules=rules, start=start, avoid_insert=[],
+                sentence=sentence, alphabet=alphabet, extra_inputs=extra, unused_tokens=[t[0] for t in unused] + ["FLOAT"])
+
+
 def fam_states(rng):
     """lexer with start states (exclusive or inclusive, push/pop/replace): the generated lexerdef()
     re-creates the start states, the rules' start-state lists and target states"""
@@ -481,7 +545,7 @@ def fam_random(rng):
     return fam_list(rng)
 
 
-FAMILIES = [fam_expr, fam_list, fam_long, fam_flags, fam_insert, fam_avoid, fam_states, fam_random]
+FAMILIES = [fam_expr, fam_list, fam_long, fam_flags, fam_insert, fam_avoid, fam_states, fam_random, fam_keywords]
 
 
 def make_inputs(rng, fam, n):
@@ -509,6 +573,10 @@ def settings(rng, idx):
     s['vis'] = rng.choice(["priv", "pub", "super", "self", "crate", "in"])
     s['mody'] = rng.choice(["-", "-", "gy%d" % idx])
     s['modl'] = rng.choice(["-", "-", "gl%d" % idx])
+    # ENTRY POINT of the generation step: CTLexerBuilder::lrpar_config(..).build(), or the deprecated
+    # CTParserBuilder::process_file + CTLexerBuilder::rule_ids_map(..).process_file
+    s['entry'] = rng.choice(["build", "build", "pf"])
+    s['amp'] = rng.choice(["-", "-", "1", "0"])           # allow_missing_tokens_in_parser
     return s
 
 
